@@ -82,7 +82,26 @@ func init() {
 		}
 		return true
 	}
-	for _, n := range []string{"(*sync.Mutex).Lock", "(*sync.Mutex).Unlock", "(*sync.RWMutex).Lock", "(*sync.RWMutex).Unlock", "(*sync.RWMutex).RLock", "(*sync.RWMutex).RUnlock",
+	// locks: no effect on program state; the ghost counter of locks held by the function under verification goes up and
+	// down (lock balance: a function returns with the locks it took released, see lockBalance in concur.go)
+	lockOp := func(delta int) func(a *Act, res ssa.Value, instr ssa.Instruction, args []string, st *State, reach string) bool {
+		return func(a *Act, res ssa.Value, instr ssa.Instruction, args []string, st *State, reach string) bool {
+			g := a.g
+			if g.trackLocks {
+				st.H["G"] = g.def("HG", heapSort["G"], sto(st.H["G"], ghostLockRef, "0", fmt.Sprintf("(+ %s %d)", g.locksNow(st), delta)))
+			}
+			return true
+		}
+	}
+	for _, n := range []string{"(*sync.Mutex).Lock", "(*sync.RWMutex).Lock", "(*sync.RWMutex).RLock"} {
+		externs[n] = lockOp(1)
+		externWrites[n] = []string{}
+	}
+	for _, n := range []string{"(*sync.Mutex).Unlock", "(*sync.RWMutex).Unlock", "(*sync.RWMutex).RUnlock"} {
+		externs[n] = lockOp(-1)
+		externWrites[n] = []string{}
+	}
+	for _, n := range []string{
 		"(*sync.WaitGroup).Add", "(*sync.WaitGroup).Done", "(*sync.WaitGroup).Wait", "atomic.LoadUint32", "atomic.CompareAndSwapUint32", "atomic.StoreUint32", "atomic.AddUint32"} {
 		externs[n] = noop
 		externWrites[n] = []string{}
